@@ -686,6 +686,13 @@ static htp_cfg_t *build_cfg(runctx *x) {
     htp_config_set_parse_request_auth(cfg, cf[CF_PARSE_AUTH] ? 1 : 0);
     if (cf[CF_URLENC_PARSER]) htp_config_register_urlencoded_parser(cfg);
     if (cf[CF_MULTIPART_PARSER]) htp_config_register_multipart_parser(cfg);
+    if (cf[CF_EXTRACT_FILES]) {
+        /* multipart file extraction to disk: into a private directory the check creates and removes (HX_TMPDIR); the files
+         * themselves are unlinked by the library when the part is destroyed */
+        const char *td = getenv("HX_TMPDIR");
+        htp_config_set_tmpdir(cfg, (char *) (td && *td ? td : "/tmp"));
+        htp_config_set_extract_request_files(cfg, 1, cf[CF_EXTRACT_FILES] > 1 ? cf[CF_EXTRACT_FILES] : 16);
+    }
     htp_config_set_allow_space_uri(cfg, cf[CF_ALLOW_SPACE_URI] ? 1 : 0);
     if (cf[CF_LOG_LEVEL] >= 0) htp_config_set_log_level(cfg, (enum htp_log_level_t) cf[CF_LOG_LEVEL]);
     if (cf[CF_FIELD_HARD] > 0) htp_config_set_field_limits(cfg, (size_t) (cf[CF_FIELD_SOFT] > 0 ? cf[CF_FIELD_SOFT] : cf[CF_FIELD_HARD] / 2), (size_t) cf[CF_FIELD_HARD]);
